@@ -15,10 +15,13 @@ import common
 from common import Check, Infra, harness_json, validate_chunks, workdir, tlc_must_pass, tla_string, log
 
 # (start symbol, free start choice, budget quick, budget thorough)
-STARTS = [("E12", False, 2, 3), ("Type", False, 2, 3), ("QueryStatement", False, 2, 3), ("QS_From", False, 2, 3), ("QS_Suffix", True, 2, 3),
-          ("DML", True, 1, 2), ("Call", False, 1, 2), ("DDL", True, 2, 3),
-          ("FE_Arg", False, 1, 2), ("FE_Mod", False, 1, 2), ("FD_Col", False, 1, 2), ("FD_Seq", False, 1, 2), ("FD_Ident", False, 1, 2), ("FD_PG", False, 1, 2),
-          ("FD_PGProps", False, 1, 2), ("FD_CS", False, 1, 2), ("FM_Return", False, 1, 2)]
+# (start symbol, free start choice, budget quick, budget thorough, budget thorough for the heavy checks)
+# heavy = several renderings / per-node work per sentence (C05 C06 C16 C17 C19, and C04 as part of the parser family)
+STARTS = [("E12", False, 2, 3, 3), ("Type", False, 2, 3, 3), ("QueryStatement", False, 2, 3, 3), ("QS_From", False, 2, 3, 2), ("QS_Suffix", True, 2, 3, 2),
+          ("DML", True, 1, 2, 2), ("Call", False, 1, 2, 2), ("DDL", True, 2, 3, 2),
+          ("FE_Arg", False, 1, 2, 2), ("FE_Mod", False, 1, 2, 1), ("FD_Col", False, 1, 2, 1), ("FD_Seq", False, 1, 2, 2), ("FD_Ident", False, 1, 2, 2), ("FD_PG", False, 1, 2, 2),
+          ("FD_PGProps", False, 1, 2, 2), ("FD_CS", False, 1, 2, 2), ("FM_Return", False, 1, 2, 2)]
+HEAVY = {"C04", "C05", "C06", "C16", "C17", "C19"}
 PROFILES = {"quick": 4, "thorough": 7}
 # C07: operator trees
 C07 = {"quick": dict(budget=3), "thorough": dict(budget=4)}
@@ -54,10 +57,11 @@ def corpora(chk, prop, tier, wd):
         jobs.append(lambda: generate(chk, "ops-full", b, "E12", False, wd, opsonly=True, leafalts=False, wrap=True))
         jobs.append(lambda: generate(chk, "expr", 2 if tier == "quick" else 3, "E12", False, wd))
     else:
-        for (start, free, bq, bt) in STARTS:
+        for (start, free, bq, bt, bh) in STARTS:
             if not has_start(start):
                 continue
-            jobs.append(lambda start=start, free=free, bq=bq, bt=bt: generate(chk, start, bq if tier == "quick" else bt, start, free, wd))
+            b = bq if tier == "quick" else (bh if prop in HEAVY else bt)
+            jobs.append(lambda start=start, free=free, b=b: generate(chk, start, b, start, free, wd))
     outs = common.parallel(jobs, 4)
     if tier == "thorough" and prop != "C07":
         # random deep derivations beyond the exhaustive budget (TLC -simulate on the same specification)
